@@ -31,6 +31,7 @@ type seqList interface {
 	Each(func(int))
 	Impl() any
 	HasInsertBefore() bool
+	Clear() bool // false: the list has no Clear
 }
 
 type sl struct{ l *list.SList[int] }
@@ -61,6 +62,7 @@ func (s sl) Last() (int, bool)     { return 0, false }
 func (s sl) Each(f func(int))      { s.l.Each(f) }
 func (s sl) Impl() any             { return s.l }
 func (s sl) HasInsertBefore() bool { return false }
+func (s sl) Clear() bool           { return false }
 
 type dl struct{ l *list.DList[int] }
 
@@ -93,6 +95,7 @@ func (s dl) Last() (int, bool)     { return s.l.Last(), true }
 func (s dl) Each(f func(int))      { s.l.Each(f) }
 func (s dl) Impl() any             { return s.l }
 func (s dl) HasInsertBefore() bool { return true }
+func (s dl) Clear() bool           { s.l.Clear(); return true } // cuts the list back to its first node
 
 func init() {
 	registry["C19"] = func() []*seqmc.Spec {
@@ -116,10 +119,10 @@ func init() {
 				return &listSys{name: "DList", l: dl{list.InitDList(v)}, model: []int{v}, cap: dcap, dups: true}
 			}},
 			{Property: "C19", PureObservers: true, Component: "SList", Inits: []string{"single"}, MaxDepth: depth, New: func(string) seqmc.Sys {
-				return &listSys{name: "SList", l: sl{list.Init(1)}, model: []int{1}, next: 2, cap: cap}
+				return &listSys{name: "SList", l: sl{list.Init(1001)}, model: []int{1001}, next: 1002, cap: cap}
 			}},
 			{Property: "C19", PureObservers: true, Component: "DList", Inits: []string{"single"}, MaxDepth: depth, New: func(string) seqmc.Sys {
-				return &listSys{name: "DList", l: dl{list.InitDList(1)}, model: []int{1}, next: 2, cap: cap}
+				return &listSys{name: "DList", l: dl{list.InitDList(1001)}, model: []int{1001}, next: 1002, cap: cap}
 			}},
 		}
 	}
@@ -166,6 +169,9 @@ func (s *listSys) Ops() []seqmc.Op {
 		return ops
 	}
 	ops := []seqmc.Op{op("Shift"), op("Pop"), op("ReplaceAbsent")}
+	if s.l.HasInsertBefore() && len(s.model) >= 2 {
+		ops = append(ops, op("Clear")) // DList: a list that is cut back and used again
+	}
 	grow := len(s.model) < s.cap
 	if grow {
 		ops = append(ops, op("Unshift"), op("Append"))
@@ -326,6 +332,10 @@ func (s *listSys) Apply(o seqmc.Op, c *seqmc.Ctx) {
 		}
 		s.model = append([]int{}, s.model...)
 		s.model[i] = v
+	case "Clear":
+		if s.l.Clear() {
+			s.model = append([]int{}, s.model[:1]...)
+		}
 	case "ReplaceAbsent":
 		v := s.fresh()
 		if err := s.l.Replace(-7, v); err == nil {
@@ -440,12 +450,19 @@ func (s *listSys) Key() string {
 	if s.dups {
 		return seqmc.Dump(s.l.Impl()) + "|" + fmt.Sprint(s.model)
 	}
-	ren := map[int64]string{0: "z"}
+	// element values (>= 1000, fresh ones counting up) are renamed canonically by first occurrence: the
+	// lists are data independent. Any OTHER integer in the private state (a length counter, a
+	// generation number) is part of the state as it is -- renaming it too would merge "value 2, size 1"
+	// with "value 1, size 2"
+	ren := map[int64]string{}
 	f := func(v int64) string {
+		if v < 1000 {
+			return fmt.Sprint(v)
+		}
 		if r, ok := ren[v]; ok {
 			return r
 		}
-		r := fmt.Sprintf("v%d", len(ren))
+		r := fmt.Sprintf("v%d", len(ren)+1)
 		ren[v] = r
 		return r
 	}
